@@ -9,14 +9,17 @@ import (
 	imap "github.com/emersion/go-imap/v2"
 )
 
-// D returns a UTC time on the given day of January/February 2020.
+// Loc is the zone of every generated time (bounds and message dates alike, so that the calendar
+// date of each is unambiguous). UTC unless a check selects another one before generating.
+var Loc = time.UTC
+
+// D returns a time in Loc on the given day of January/February 2020.
 func D(month time.Month, day, hour, min int) time.Time {
-	return time.Date(2020, month, day, hour, min, 0, 0, time.UTC)
+	return time.Date(2020, month, day, hour, min, 0, 0, Loc)
 }
 
 var (
 	uniSizes = []int64{50, 99, 100, 101, 199, 200, 201, 999, 1000, 1001}
-	uniDates = []time.Time{D(1, 9, 23, 59), D(1, 10, 0, 0), D(1, 10, 13, 45), D(1, 11, 0, 1), D(1, 14, 12, 0), D(1, 15, 0, 0), D(1, 15, 23, 59), D(1, 16, 8, 0), D(1, 31, 23, 0), D(2, 1, 0, 0), D(2, 1, 17, 0), D(2, 2, 1, 0)}
 	uniSubj  = []string{"hello world", "Other Things", ""}
 	uniFrom  = []string{"bob@example.org", "Alice <alice@example.com>"}
 	uniBody  = []string{"alpha beta", "only alpha here", "gamma delta", ""}
@@ -27,6 +30,7 @@ var (
 // used by Pool / the SEARCH key alphabet is both present and absent.
 func Universe(n int) ([]Msg, Ctx) {
 	rng := rand.New(rand.NewSource(20200110))
+	uniDates := []time.Time{D(1, 9, 23, 59), D(1, 10, 0, 0), D(1, 10, 13, 45), D(1, 11, 0, 1), D(1, 14, 12, 0), D(1, 15, 0, 0), D(1, 15, 23, 59), D(1, 16, 8, 0), D(1, 31, 23, 0), D(2, 1, 0, 0), D(2, 1, 17, 0), D(2, 2, 1, 0)}
 	u := make([]Msg, n)
 	for i := range u {
 		m := &u[i]
